@@ -240,14 +240,20 @@ func (i *interpreter) concretize(t *smt.Term) uint64 {
 		if d < len(i.prefix) {
 			v = i.prefix[d].Val
 		} else {
-			r, m := i.check(nil, true)
+			// ask the solver for the value of t itself (t may contain uninterpreted functions)
+			i.czCount++
+			probe := i.ctx.Sym(fmt.Sprintf("cz!%d", i.czCount), t.W)
+			i.res.Queries++
+			r, m := i.sess.Check([]*smt.Term{i.ctx.Eq(probe, t)}, true, []*smt.Term{probe})
 			if r != smt.Sat {
 				if r == smt.Unknown {
 					i.res.Unknown++
 				}
 				panic(pathAbort{"infeasible", "concretize: pc not sat"})
 			}
-			v = i.ctx.Eval(t, m).Uint64()
+			if pv, ok := m[probe.Name]; ok {
+				v = pv.Uint64()
+			}
 		}
 		eq := i.ctx.Eq(t, i.ctx.BV(v, t.W))
 		// record Val on the decision we are about to take
